@@ -96,6 +96,7 @@ type Exec struct {
 	crcTable       *Cell
 	pcVars         *big.Int
 	pcVarsN        int
+	initSkipped    int
 }
 
 type NdInput struct {
@@ -643,8 +644,12 @@ func (x *Exec) visit(fr *frame, instr ssa.Instruction) cont {
 	case *ssa.BinOp:
 		fr.env[in] = x.binop(in.Op, in.X.Type(), x.get(fr, in.X), x.get(fr, in.Y))
 	case *ssa.Call:
-		fn, args := x.prepareCall(fr, &in.Call)
-		fr.env[in] = x.callValue(fn, args, fr)
+		if x.inInit > 0 && fr.fn.Name() == "init" {
+			fr.env[in] = x.lenientInitCall(fr, in)
+		} else {
+			fn, args := x.prepareCall(fr, &in.Call)
+			fr.env[in] = x.callValue(fn, args, fr)
+		}
 	case *ssa.ChangeInterface:
 		fr.env[in] = x.get(fr, in.X)
 	case *ssa.ChangeType:
@@ -1398,4 +1403,32 @@ func (x *Exec) pcVarSet() *big.Int {
 		x.pcVars.Or(x.pcVars, x.ctx.VarSet(x.pc[x.pcVarsN]))
 	}
 	return x.pcVars
+}
+
+// lenientInitCall: inside a package initialiser a call the engine cannot execute (reflection, time zone tables, ...)
+// leaves the initialised variable at its zero value instead of ending the path; any later use of such a variable
+// fails closed (nil dereference => panic path that does not replay natively => inconclusive).
+func (x *Exec) lenientInitCall(fr *frame, in *ssa.Call) (res Value) {
+	saveDepth := x.depth
+	defer func() {
+		if r := recover(); r != nil {
+			switch e := r.(type) {
+			case pathEnd:
+				if e.Kind != "unsupported" {
+					panic(r)
+				}
+			case *goPanic:
+			case mergeAbort:
+				panic(r)
+			default:
+				// a Go runtime error inside the interpreter (e.g. reflection internals): same treatment
+			}
+			x.depth = saveDepth
+			x.curInstr = in
+			x.initSkipped++
+			res = x.zero(in.Type(), nil)
+		}
+	}()
+	fn, args := x.prepareCall(fr, &in.Call)
+	return x.callValue(fn, args, fr)
 }
